@@ -253,5 +253,74 @@ def Impl.adj (cj : K → K) (I : K) : Impl K → Option (Impl K)
       let a' ← a.adj cj I; let rest' ← rest.adj cj I
       pure (.pcons c r a' rest')                 -- COO rows/cols swapped, entries adjointed
 
+/-! ### n-d index arithmetic and the leaves built on it (round 4)
+
+`SamplingOperator` / `WeightedSumSamplingOperator` on n-d spaces index the raveled array with
+`np.ravel_multi_index(sampling_points, shape)`; `FlatteningOperator(order='F')` is
+`np.ravel(x, order='F')`, i.e. the permutation `cOfF` of the flat C-order view, and its inverse
+`np.reshape(y, shape, order='F')` is the permutation `fOfC`; `MatrixOperator(axis=a)` on an n-d
+tensor is `np.moveaxis(np.tensordot(M, x, (1, a)), 0, a)`: with `p` = product of the axes
+before `a` and `q` = product of the axes after, `out[(u, i, v)] = Σ_k M[i, k] x[(u, k, v)]`. -/
+
+/-- product of a shape -/
+def shProd : List Nat → Nat
+  | [] => 1
+  | n :: sh => n * shProd sh
+
+/-- `np.ravel_multi_index(mi, sh)` (C order). -/
+def ravelC : List Nat → List Nat → Nat
+  | _ :: sh, i :: mi => i * shProd sh + ravelC sh mi
+  | _, _ => 0
+
+/-- flat index of the `k`-th sampling point, given one index array per axis (the normal form
+of `_normalize_sampling_points`). -/
+def sampIdx (sh : List Nat) (pts : List (List Nat)) (k : Nat) : Nat :=
+  ravelC sh (pts.map fun a => a.getD k 0)
+
+/-- flat C-order index of the element that is number `i` in Fortran order. -/
+def cOfF : List Nat → Nat → Nat
+  | [], _ => 0
+  | n :: sh, i => (i % n) * shProd sh + cOfF sh (i / n)
+
+/-- Fortran-order position of the element with flat C-order index `k`. -/
+def fOfC : List Nat → Nat → Nat
+  | [], _ => 0
+  | n :: sh, k => k / shProd sh + n * fOfC sh (k % shProd sh)
+
+/-- `np.ravel(x, order='F')` on the flat C-order view. -/
+def flatFRun (sh : List Nat) : El K → El K := fun x _ i => x 0 (cOfF sh i)
+
+/-- `np.reshape(y, shape, order='F')` on the flat C-order view. -/
+def flatFInvRun (sh : List Nat) : El K → El K := fun y _ k => y 0 (fOfC sh k)
+
+/-- FlatteningOperator(S, order='F') with the adjoint as coded: `(1 / weighting) * inverse`
+(scalar or vector multiple).  An `opaque` leaf whose two actions are executable model
+functions (its contract is PROVED: `C05.flatten_F_adj`). -/
+def Leaf.flattenF (S R : Space K) (sh : List Nat) : Leaf K :=
+  .opaque false S R (flatFRun sh) (fun y j k => flatFInvRun sh y j k * (1 / S.W j k))
+
+/-- FlatteningOperator(S, order='F').inverse with the adjoint as coded: `op * weighting`. -/
+def Leaf.flattenFInv (R S : Space K) (sh : List Nat) : Leaf K :=
+  .opaque false R S (flatFInvRun sh) (fun x => flatFRun sh (fun j k => x j k * S.W j k))
+
+/-- MatrixOperator(M, axis) on a tensor of shape `(p, n, q)` (flat C order) → `(p, m, q)`. -/
+def matAxisRun (n m q : Nat) (M : Nat → Nat → K) : El K → El K :=
+  fun x _ o => sumTo n fun k => M ((o / q) % m) k * x 0 ((o / (m * q) * n + k) * q + o % q)
+
+/-- The matrix of `MatrixOperator.adjoint` on n-d tensors as coded: the conjugate transpose,
+times `ran_const / dom_const` when both weightings are constants and differ; the bare
+conjugate transpose for every other weighting (`cw = none`: array weighting of an n-d space,
+custom inner product — open finding F7). -/
+def matAxisAdjM (cj : K → K) (cw : Option (K × K)) (M : Nat → Nat → K) : Nat → Nat → K :=
+  fun k i => match cw with
+    | some (wd, wr) => if wd = wr then cj (M i k) else cj (M i k) * (wr / wd)
+    | none => cj (M i k)
+
+/-- MatrixOperator(M, domain=d, range=r, axis) on n-d tensors with its coded adjoint
+`MatrixOperator(adj_matrix, domain=r, range=d, axis)`. -/
+def Leaf.matrixAxis (cj : K → K) (d r : Space K) (n m q : Nat) (cw : Option (K × K))
+    (M : Nat → Nat → K) : Leaf K :=
+  .opaque false d r (matAxisRun n m q M) (matAxisRun m n q (matAxisAdjM cj cw M))
+
 end
 end OdlModel.Adjoint
